@@ -119,3 +119,36 @@ theorem mulDiv_floor_bounds {v m d : Int} (hv : 0 ≤ v) (hm : 0 ≤ m) (hd : 0 
 theorem mulDiv_zero (m d : Int) : mulDiv 0 m d = 0 := by simp [mulDiv]
 
 end Rtsp.TimeDec
+
+namespace Rtsp.TimeDec
+
+/-- the point of splitting the division (the Go comment "avoid an int64 overflow"): for non-negative
+`v`, `0 ≤ m < 2^31` and `0 < d < 2^31`, every intermediate value of `multiplyAndDivide` is bounded by the
+final result or by `2^62`, so the computation fits int64 whenever the result does — although `v·m` may not. -/
+theorem mulDiv_intermediates_fit {v m d : Int} (hv : 0 ≤ v) (hm0 : 0 ≤ m) (hm : m < 2147483648)
+    (hd0 : 0 < d) (hd : d < 2147483648) :
+    0 ≤ v.tdiv d * m ∧ v.tdiv d * m ≤ mulDiv v m d ∧
+    0 ≤ v.tmod d * m ∧ v.tmod d * m < 4611686018427387904 ∧
+    0 ≤ (v.tmod d * m).tdiv d ∧ (v.tmod d * m).tdiv d < 2147483648 := by
+  rw [Int.tdiv_eq_ediv_of_nonneg hv, Int.tmod_eq_emod_of_nonneg hv]
+  have hr0 : 0 ≤ v % d := Int.emod_nonneg _ (by omega)
+  have hr1 : v % d < d := Int.emod_lt_of_pos _ hd0
+  have hq0 : 0 ≤ v / d := Int.ediv_nonneg hv (by omega)
+  have h1 : 0 ≤ v / d * m := Int.mul_nonneg hq0 hm0
+  have h2 : 0 ≤ v % d * m := Int.mul_nonneg hr0 hm0
+  have h3 : v % d * m ≤ 2147483647 * m := Int.mul_le_mul_of_nonneg_right (by omega) hm0
+  have h4 : 0 ≤ (v % d * m).tdiv d := by
+    rw [Int.tdiv_eq_ediv_of_nonneg h2]; exact Int.ediv_nonneg h2 (by omega)
+  have h5 : (v % d * m).tdiv d < 2147483648 := by
+    rw [Int.tdiv_eq_ediv_of_nonneg h2]
+    have : v % d * m < d * 2147483648 := by
+      have a : v % d * m ≤ v % d * 2147483647 := Int.mul_le_mul_of_nonneg_left (by omega) hr0
+      have b : v % d * 2147483647 < d * 2147483648 := by omega
+      omega
+    exact Int.ediv_lt_of_lt_mul hd0 (by rw [Int.mul_comm 2147483648 d]; exact this)
+  refine ⟨h1, ?_, h2, by omega, h4, h5⟩
+  unfold mulDiv
+  rw [Int.tdiv_eq_ediv_of_nonneg hv, Int.tmod_eq_emod_of_nonneg hv]
+  omega
+
+end Rtsp.TimeDec
